@@ -34,6 +34,7 @@ class OdeWorld:
         self.setups, self.steps, self.fail_at = [], [], fail_at
         self.eig = eig or (lambda t: [0.3, -1.0])
         self.objs = []
+        self.budgets = []                # (library routine, internal steps allowed between two output times)
         self.vel = lambda: list(C)       # velocity of the test problem (a session makes it depend on the model's current parameter value)
 
 
@@ -48,6 +49,7 @@ class OdeObj:
     def set_integrator(self, name, **kw):
         self.name, self.kw = name, dict(kw)
         self.world.setups.append(self)
+        self.world.budgets.append((name, kw.get("nsteps", 500)))         # scipy's default for every integrator of scipy.integrate.ode
         return self
 
     def set_f_params(self, *a):
@@ -279,6 +281,8 @@ def run_entry(repo, entry, t, full_output, method=None, session=None):
             roles.errors.append("odeint is told col_deriv=%r but jacobian() returns d f_i / d x_j in row i" % (col_deriv,))
         rows = NumArr([[yi + ci * (tk - ts[0]) for yi, ci in zip(y0l, world.vel())] for tk in ts])
         world.steps.append(("odeint", ts[0], ts[-1]))
+        mx = k.get("mxstep", 0)
+        world.budgets.append(("odeint", 500 if not mx else mx))        # scipy: mxstep=0 means the solver's default of 500
         return (rows, {"message": "ok"}) if full_output else rows
     summ["scipy.integrate.odeint"] = odeint
     summ["odeint"] = odeint
@@ -417,6 +421,7 @@ def check_entrypoints(repo, res, rule="R-GRID"):
     """integrate(t) / integrate2(t, method): one row per requested time preceded by the initial state, every row the solution of the
     test problem at its own time; the functions handed to the library integrators have the argument order the library uses"""
     n = 0
+    budgets = {}
     grids = [("list", [1.0, 2.0, 3.5], [1.0, 2.0, 3.5]), ("tuple", (1.0, 2.0, 3.5), [1.0, 2.0, 3.5]), ("array", NumArr([0.75, 1.0, 3.0]), [0.75, 1.0, 3.0]), ("scalar", 2.0, [2.0]),
              ("starting-at-t0", [0.5, 1.0, 2.0], [0.5, 1.0, 2.0])]
     for entry, methods in (("integrate", (None,)), ("integrate2", (None, "vode", "dopri5"))):
@@ -446,4 +451,14 @@ def check_entrypoints(repo, res, rule="R-GRID"):
                         problems += roles.errors[:2]
                     res.check(not problems, rule, fn, tag, "rows = initial state, then the solution at each requested time; evaluators called with the library's argument order",
                               "; ".join(problems[:3]), node=fn.node)
+                    if kind == "return":
+                        for lib, b_ in world.budgets:
+                            budgets.setdefault(entry, set()).add((lib, b_))
+    # sibling agreement: every entry point lets its library integrator take the same number of internal steps between two requested times,
+    # so a (sparse) grid that one entry point solves is solved by the others; the libraries do not raise when the budget runs out
+    vals = {b_ for bs in budgets.values() for _lib, b_ in bs}
+    fn = repo.resolve_method(M.sim_class(repo), "integrate")
+    res.check(len(vals) <= 1 and bool(vals), "R-BUDGET", fn, "same-step-budget", "all solving entry points allow the same number of internal solver steps per output interval (%s)" % sorted(vals),
+              "the entry points allow different numbers of internal solver steps between two requested times: %s - on a grid with a long gap the one with the smaller budget stops "
+              "mid-gap and returns rows that are not the solution (odeint only warns)" % {e: sorted(bs) for e, bs in budgets.items()}, node=fn.node if fn else None)
     return n
